@@ -1064,7 +1064,7 @@ def sc_swap(rng, opts):
 def sc_ncon(rng, opts):
     """small networks contracted by ncon/einsum vs np.einsum (bosonic)"""
     sym, cfg = pick_cfg(rng, opts)
-    shape = rng.choice(['chain3', 'triangle', 'pair_trace', 'outer'])
+    shape = rng.choice(['chain3', 'triangle', 'pair_trace', 'outer', 'full'])
     mk = lambda: rleg(rng, cfg, sym, maxD=2)
     L = [mk() for _ in range(6)]
     if shape == 'chain3':   # A[a,b] B[b*,c,d] C[c*,e]  -> a d e
@@ -1073,6 +1073,9 @@ def sc_ncon(rng, opts):
     elif shape == 'triangle':   # A[a,b,x] B[b*,c] C[c*,a*,y]
         specs = [([L[0], L[1], L[2]], [1, 2, -1]), ([L[1].conj(), L[3]], [2, 3]), ([L[3].conj(), L[0].conj(), L[4]], [3, 1, -2])]
         es = 'abx,bc,cay->xy'
+    elif shape == 'full':   # A[a,b] B[b*,a*] -> scalar (explicit empty output)
+        specs = [([L[0], L[1]], [1, 2]), ([L[1].conj(), L[0].conj()], [2, 1])]
+        es = 'ab,ba->'
     elif shape == 'pair_trace':   # A[a,a*,b] B[b*,c]
         specs = [([L[0], L[0].conj(), L[1]], [1, 1, 2]), ([L[1].conj(), L[2]], [2, -1])]
         es = 'aab,bc->c'
